@@ -31,6 +31,10 @@ func widthClass(n uint32) string {
 
 var c14Sentinel = []byte{0xEE, 0xEE, 0xEE}
 
+// a handler shared by all programs of a worker (the disassembler is documented as reusable)
+var reusedPH *vm.ParseHandler
+var reuseTick uint
+
 // checkInt runs the cheap integer legs for one value. buf is scratch.
 func checkInt(n uint32, buf []byte) (string, string) {
 	enc, err := asm.VerifWriteSize(n)
@@ -128,6 +132,31 @@ func checkProgram(prog []codec.Ins, textSafe, asmSafe bool) (string, string) {
 	var ts string
 	var terr error
 	pv, _ = vk.Guard(func() { ts, terr = vm.NewParseHandler().WithDefaultHandlers().ToString(b) })
+	// the same listing from a handler that is reused across programs and has seen a failed listing
+	// (a truncation of this program) and a plain verification pass (ParseAll) in between
+	if pv == nil && terr == nil {
+		var ts2 string
+		var terr2 error
+		pv2, _ := vk.Guard(func() {
+			if reusedPH == nil {
+				reusedPH = vm.NewParseHandler().WithDefaultHandlers()
+			}
+			switch reuseTick % 3 {
+			case 0:
+				if len(b) > 3 {
+					reusedPH.ToString(b[:len(b)-1-int(reuseTick)%(len(b)-2)])
+				}
+			case 1:
+				reusedPH.ParseAll(b)
+			}
+			reuseTick++
+			ts2, terr2 = reusedPH.ToString(b)
+		})
+		if pv2 != nil || terr2 != nil || ts2 != ts {
+			reusedPH = nil
+			return "prog:tostring:reused-handler-differs", fmt.Sprintf("a ParseHandler reused after a failed listing / a ParseAll pass lists %q (err %v, panic %v), a fresh one %q", trunc([]byte(ts2), 200), terr2, pv2, trunc([]byte(ts), 200))
+		}
+	}
 	if pv != nil {
 		return "prog:tostring:panic", fmt.Sprintf("panic %v listing %v", pv, codec.Strings(prog))
 	}
